@@ -456,11 +456,20 @@ fn check_inner(c: &Case) -> Result<Stats, (String, String)> {
 }
 
 pub fn run(ctx: &Ctx, st: &mut Stats) -> Vec<Violation> {
-    run_proptest(ctx, st, "images", ctx.cases(12_000, 300_000), strategy, check)
+    let mut v = run_proptest(ctx, st, "images", ctx.cases(12_000, 300_000), strategy, check);
+    if !v.is_empty() {
+        return v;
+    }
+    // R9: model-based call histories (see c11_hist.rs)
+    v.extend(run_proptest(ctx, st, "histories", ctx.cases(8_000, 200_000), super::c11_hist::strategy, super::c11_hist::check));
+    v
 }
 
 pub fn replay(v: &Value) -> Result<(), String> {
+    if v.get("part").and_then(|p| p.as_str()) == Some("history") {
+        return super::c11_hist::replay(v);
+    }
     check(&Case::from_json(v).ok_or("bad case")?, &mut Stats::new()).map_err(|v| v.message)
 }
 
-pub const RULE: &str = "cases = (source type in {Yuv<u8>, Yuv<u16>, Rgb, LinearRgb, Xyb, Hsl}, any working config (7 standard + 5 primaries-derived matrices) with one of 6 subsamplings, size 1..=64 x 1..=64 (one case in seven: a thin image 1025..4200 pixels wide) rounded to a multiple of the subsampling, random content (a third of the images with related neighbours: runs, partly equal pixels, pixels equal to the converted previous pixel), two independent padding layouts 0..=32 with different padding contents) generated by proptest; every conversion edge leaving the source type is run (18 From/TryFrom impls in total, by reference and by value, u8 and u16 outputs). Metamorphic relations: R1 dimensions preserved; R2 output pixel i is bit-identical to the conversion of the 1x1 image made of input pixel i (YUV sources: Y(x,y) with the chroma sample at (x>>ss_x, y>>ss_y)), on all pixels of images up to 256 pixels and 127 positions (corners + random) of larger ones; R3 encode to subsampled YUV: luma equals the 4:4:4 luma plane, each chroma sample equals the 4:4:4 chroma of a pixel of its own block, plane sizes (w>>ss_x, h>>ss_y); R4 YUV sources rebuilt with another padding/stride and other padding contents give bit-identical output; R5 sources compare equal to a clone taken before; R6 a second run is bit-identical; R7 a float source obtained through an earlier conversion from a bland image and overwritten through data_mut() converts exactly like a fresh image with the same data; R8 the result is unchanged after conversions with decoy configs (one field changed) ran on the same thread, and equals the result computed on a fresh thread. non-trivial = image with w>1 and h>1; distinct = by hash of the case";
+pub const RULE: &str = "cases = (source type in {Yuv<u8>, Yuv<u16>, Rgb, LinearRgb, Xyb, Hsl}, any working config (7 standard + 5 primaries-derived matrices) with one of 6 subsamplings, size 1..=64 x 1..=64 (one case in seven: a thin image 1025..4200 pixels wide) rounded to a multiple of the subsampling, random content (a third of the images with related neighbours: runs, partly equal pixels, pixels equal to the converted previous pixel), two independent padding layouts 0..=32 with different padding contents) generated by proptest; every conversion edge leaving the source type is run (18 From/TryFrom impls in total, by reference and by value, u8 and u16 outputs). Metamorphic relations: R1 dimensions preserved; R2 output pixel i is bit-identical to the conversion of the 1x1 image made of input pixel i (YUV sources: Y(x,y) with the chroma sample at (x>>ss_x, y>>ss_y)), on all pixels of images up to 256 pixels and 127 positions (corners + random) of larger ones; R3 encode to subsampled YUV: luma equals the 4:4:4 luma plane, each chroma sample equals the 4:4:4 chroma of a pixel of its own block, plane sizes (w>>ss_x, h>>ss_y); R4 YUV sources rebuilt with another padding/stride and other padding contents give bit-identical output; R5 sources compare equal to a clone taken before; R6 a second run is bit-identical; R7 a float source obtained through an earlier conversion from a bland image and overwritten through data_mut() converts exactly like a fresh image with the same data; R8 the result is unchanged after conversions with decoy configs (one field changed) ran on the same thread, and equals the result computed on a fresh thread; R9 model-based call histories: 3..12 operations (construct, convert with one of 4 configs differing in one field, paint through data_mut()) over a pool of 3 image slots, every conversion compared with the same conversion of a replica rebuilt from the observable state (data, dims, labels) on a fresh thread. non-trivial = image with w>1 and h>1; distinct = by hash of the case";
